@@ -199,25 +199,43 @@ func analyse(x *Exec) *RunResult {
 		// the kernel reports the end of a watched file (DELETE_SELF) and the removal of
 		// its entry from a watched directory (DELETE) for one and the same unlink, the
 		// Remove is delivered once, not under both spellings
+		overflowed := wr.Inst != nil && len(wr.Inst.Dropped) > 0
 		if wr.Inst != nil {
+			for _, r := range wr.Inst.Fed {
+				if r.Mask&unix.IN_Q_OVERFLOW != 0 {
+					overflowed = true
+				}
+			}
+		}
+		// (not after a queue overflow: the Create between two removals of one name may be among the dropped records)
+		if wr.Inst != nil && !overflowed {
 			for i := 0; i+1 < len(wr.D); i++ {
 				a, b := wr.D[i], wr.D[i+1]
 				if a.Op&mRemove == 0 || b.Op&mRemove == 0 || filepath.Clean(a.Name) != filepath.Clean(b.Name) {
 					continue
 				}
-				base := filepath.Base(filepath.Clean(a.Name))
-				selfStep := map[int]bool{}
+				// exactly one unlink in the whole run produced removal records for this
+				// name: one DELETE_SELF of a watch added under it, one DELETE of that
+				// entry in a watched directory, both in the same kernel step
+				name := filepath.Clean(a.Name)
+				nSelf, nDel, selfStep, delStep := 0, 0, -1, -2
 				for _, r := range wr.Inst.Fed {
-					if r.Mask&unix.IN_DELETE_SELF != 0 {
-						selfStep[r.Step] = true
+					bd, ok := wr.Inst.Binding(r.Wd)
+					if !ok {
+						continue
+					}
+					if r.Mask&unix.IN_DELETE_SELF != 0 && filepath.Clean(bd.Path) == name {
+						nSelf++
+						selfStep = r.Step
+					}
+					if r.Mask&unix.IN_DELETE != 0 && r.Name != "" && filepath.Clean(bd.Path+"/"+r.Name) == name {
+						nDel++
+						delStep = r.Step
 					}
 				}
-				for _, r := range wr.Inst.Fed {
-					if r.Mask&unix.IN_DELETE != 0 && r.Name == base && selfStep[r.Step] {
-						add(Violation{Kind: "phantom-event", Watcher: wr.Idx, Site: "duplicate-remove",
-							Detail: fmt.Sprintf("one unlink (step %d) was reported twice in a row: %s, %s", r.Step, a.Str, b.Str)})
-						break
-					}
+				if nSelf == 1 && nDel == 1 && selfStep == delStep {
+					add(Violation{Kind: "phantom-event", Watcher: wr.Idx, Site: "duplicate-remove",
+						Detail: fmt.Sprintf("one unlink (step %d) was reported twice in a row: %s, %s", delStep, a.Str, b.Str)})
 				}
 			}
 		}
